@@ -242,6 +242,27 @@ func (c *PGClient) Extended(stmtName, sql string, paramOIDs []uint32, params [][
 	return c.ReadUntilReady()
 }
 
+// DrainRaw reads raw bytes (without decoding them) until the peer closes or stays quiet for the given time.
+// Used with hostile replies, where decoding on the client side would only test the client's codec.
+func (c *PGClient) DrainRaw(quiet time.Duration) int {
+	total := 0
+	buf := make([]byte, 65536)
+	for {
+		c.conn.SetReadDeadline(time.Now().Add(quiet))
+		n, err := c.conn.Read(buf)
+		total += n
+		if n > 0 {
+			c.mu.Lock()
+			c.rawIn = append(c.rawIn, buf[:n]...)
+			c.mu.Unlock()
+		}
+		if err != nil {
+			c.conn.SetReadDeadline(time.Time{})
+			return total
+		}
+	}
+}
+
 // RawIn returns every byte received from the proxy so far.
 func (c *PGClient) RawIn() []byte { c.mu.Lock(); defer c.mu.Unlock(); return append([]byte{}, c.rawIn...) }
 
